@@ -2,6 +2,7 @@ package props
 
 import (
 	"fmt"
+	"go/types"
 	"path/filepath"
 	"strings"
 
@@ -115,6 +116,52 @@ func ruleIdent(c *core.Ctx) {
 			}
 			if i < 0 {
 				break
+			}
+		}
+	}
+	// user capitalizations are inserted VERBATIM for a matching word, so one that starts with a lower-case letter (iOS, eBay, gRPC)
+	// puts a lower-case letter first: the repair of the first character must still fire. Concrete words, the rest symbolic.
+	for _, capWord := range []string{"iOS", "eBay", "gRPC"} {
+		low := strings.ToLower(capWord)
+		for _, tail := range [][]string{nil, {"Lu"}, {"Ll+"}, {"Nd"}, {"P", "Ll+"}} {
+			total++
+			tail := tail
+			runs, complete := absint.Explore(c.Prog, 16, nil, func(m *absint.Machine) any {
+				caps := m.NewSliceOf(types.Typ[types.String], absint.Lit(capWord))
+				caser := m.CallFunction(newCaser, []absint.Value{caps, m.Zero(typesStringSlice())}, nil)
+				parts := []absint.Str{absint.Lit(low)}
+				for _, cl := range tail {
+					parts = append(parts, absint.HoleStr(m.NewRune(cl)))
+				}
+				return m.CallFunction(fn, []absint.Value{caser, absint.Cat(parts...)}, nil)
+			})
+			key := fmt.Sprintf("--capitalization %s on %q + %v", capWord, low, tail)
+			if !complete {
+				c.Undecided("A-IDENT", "(*internal/x/text.Caser).Identifierize", "fork budget: "+key, "", key)
+			}
+			for _, run := range runs {
+				if run.Err != nil {
+					c.Undecided("A-IDENT", "(*internal/x/text.Caser).Identifierize", "interpretation: "+run.Err.Kind+": "+run.Err.Msg, run.Err.Pos, key+": "+run.Err.Error())
+					continue
+				}
+				res, _ := run.Out.(absint.Str)
+				first := ""
+				if len(res.P) > 0 {
+					if res.P[0].Hole != nil {
+						first = res.P[0].Hole.A.Facts["class"]
+					} else if res.P[0].Lit != "" {
+						first = litClass(rune(res.P[0].Lit[0]))
+					}
+				}
+				if first != "Lu" {
+					bad++
+					construct := "first character of class " + first + " with a user capitalization that starts lower-case"
+					if !seen[construct] {
+						seen[construct] = true
+						c.Fail("A-IDENT", "(*internal/x/text.Caser).Identifierize", construct, c.Prog.Pos(fn.Pos()),
+							fmt.Sprintf("%s gives %s: the identifier is not exported, so no decoder binds the field", key, res.Debug()), nil)
+					}
+				}
 			}
 		}
 	}
